@@ -148,11 +148,11 @@ def natDigitsAux : Nat → Nat → List Char → List Char
 
 def natDigits (n : Nat) : List Char := natDigitsAux (n + 1) n []
 
-/-- `fmt.Sprintf("%0<w>d", n)` -/
+/-- `fmt.Sprintf("%0<w>d", n)`: exactly `w` digits when `0 ≤ n < 10^w`; otherwise as many digits as needed,
+    a minus sign counting towards the width -/
 def padInt (w : Nat) (n : Int) : List Char :=
-  if 0 ≤ n then
-    let ds := natDigits n.toNat
-    List.replicate (w - ds.length) '0' ++ ds
+  if 0 ≤ n ∧ n < 10 ^ w then lastDigits w n.toNat
+  else if 0 ≤ n then natDigits n.toNat
   else
     let ds := natDigits (-n).toNat
     '-' :: (List.replicate (w - 1 - ds.length) '0' ++ ds)
